@@ -19,7 +19,7 @@ Definition direct (g : list node) (i : nat) (t : Z) (st : gstate) : gstate * opt
   match nth_error g i, nth_error (gnodes st) i with
   | Some nd, Some ns =>
       match nd with
-      | Src _ => (put i (src_pop (set_time t ns)) st, None)
+      | Src q => (put i (src_pop (sd q) (set_time t ns)) st, None)
       | Trans f p => let '(n2, lg, e2) := trans_post f t (rdd_of st p) ns in (add_log lg (put i n2 st), e2)
       | Window w s p => let '(n2, e2) := window_post w s (rdd_of st p) (set_time t ns) in (put i n2 st, e2)
       | Stateful u p => let '(n2, e2) := stateful_post u t (rdd_of st p) ns in (put i n2 st, e2)
